@@ -995,7 +995,14 @@ impl JxlImageInner {
             let read_bytes = bitstream.num_read_bits() / 8;
             buf = &buf[read_bytes..];
             let len = buf.len();
-            buf = frame.feed_bytes(buf)?;
+            buf = match frame.feed_bytes(buf) {
+                Ok(buf) => buf,
+                Err(e) => {
+                    // The frame keeps loading state; do not leave stale bytes behind it.
+                    self.buffer.clear();
+                    return Err(e.into());
+                }
+            };
             let read_bytes = read_bytes + (len - buf.len());
             self.buffer_offset += read_bytes;
 
